@@ -130,6 +130,15 @@ def c14(rng):
         lock = T.make_delegate_key_lock(PUBS[root], flh)
         exp = (begin <= t < end) and (t - now < 60)
         out.append(('delegate:t=now%+d window[%+d,%+d)' % (dt, begin - now, end - now), [bs(w), bs(lock)], cache, cfg, exp))
+    # the lower end of the timestamp domain: t = 0 is a timestamp like any other (not "no timestamp")
+    for (b0, e0, t0) in rng.sample([(0, 100, 0), (0, 100, 1), (now - 10, now + 10, 0), (0, 1, 0), (1, 100, 0)], 2):
+        cert0 = T.make_delegate_key_cert(SEEDS[root], PUBS[d1], b0, e0)
+        w0 = T.make_delegate_key_witness(SEEDS[d1], cert0, sf, flh)
+        out.append(('delegate:t=%d window[%d,%d) (absolute)' % (t0, b0, e0), [bs(w0), bs(T.make_delegate_key_lock(PUBS[root], flh))],
+                    dict(sf, timestamp=t0), cfg, (b0 <= t0 < e0) and (t0 - now < 60)))
+        wc0 = T.make_delegate_key_chain_witness(SEEDS[d1], [cert0], sf, flh)
+        out.append(('chain:len=1 t=%d window[%d,%d) (absolute)' % (t0, b0, e0), [bs(wc0), bs(T.make_delegate_key_chain_lock(PUBS[root], flh))],
+                    dict(sf, timestamp=t0), cfg, (b0 <= t0 < e0) and (t0 - now < 60)))
     t = now
     cache = dict(sf, timestamp=t)
     cert = T.make_delegate_key_cert(SEEDS[root], PUBS[d1], now - 10, now + 10)
@@ -254,6 +263,15 @@ def c16(rng):
                     within = thr <= 0 or t - now < thr
                     lock = bs(T.make_timestamp_between_lock(ts, end, False))
                     out.append(('between [now%+d,now%+d) t=now%+d%s' % (d_ts, d_e, d_t, tag), [lock], {'timestamp': t}, cfg, (ts <= t < end) and within, None))
+    # the lower end of the timestamp domain (absolute values; t = 0 is a timestamp, not "none")
+    cfg0 = tsh.Cfg()
+    for ts in (0, 1, 2):
+        for t in (0, 1, 2):
+            for ver in (False, True):
+                pre = [b'\x01'] if ver else []
+                out.append(('after ts=%d t=%d (absolute) verify=%s' % (ts, t, ver), pre + [bs(T.make_timestamp_after_lock(ts, ver))], {'timestamp': t}, cfg0, t >= ts, None))
+                out.append(('before ts=%d t=%d (absolute) verify=%s' % (ts, t, ver), pre + [bs(T.make_timestamp_before_lock(ts, ver))], {'timestamp': t}, cfg0, t < ts, None))
+        out.append(('between [%d,%d) t=0 (absolute)' % (ts, ts + 3), [bs(T.make_timestamp_between_lock(ts, ts + 3, False))], {'timestamp': 0}, cfg0, ts <= 0 < ts + 3, None))
     return out
 
 
@@ -275,6 +293,13 @@ def c16_instr(rng):
                         script = bytes([3, len(enc)]) + enc + bytes([tsh.F.opcodes_inverse['OP_' + opn][0]])
                         out.append(('%s c=now%+d(%dB) t=now%+d thr=%d' % (opn, dc, len(enc), dt, thr), script,
                                     {'timestamp': t}, cfg, ('raise' if not exp else 'empty') if ver else exp))
+                if dc == -3 and thr in (60, 0):
+                    for c0 in (0, 1, 2):
+                        for t0 in (0, 1):
+                            e0 = F.int_to_bytes(c0) if c0 else b'\x00'
+                            sc0 = bytes([3, len(e0)]) + e0 + bytes([tsh.F.opcodes_inverse['OP_CHECK_TIMESTAMP'][0]])
+                            out.append(('CHECK_TIMESTAMP c=%d t=%d (absolute) thr=%d' % (c0, t0, thr), sc0, {'timestamp': t0}, cfg,
+                                        (t0 >= c0) and (thr <= 0 or t0 - now < thr)))
                 expe = (c - now) < ethr
                 for opn, ver in (('CHECK_EPOCH', False), ('CHECK_EPOCH_VERIFY', True)):
                     script = bytes([3, len(enc)]) + enc + bytes([tsh.F.opcodes_inverse['OP_' + opn][0]])
@@ -400,6 +425,9 @@ def c04(rng):
 def ed_add(a, b): return nb.crypto_core_ed25519_add(a, b)
 
 
+_C05_SWEPT = False
+
+
 def c05(rng):
     out = []
     cfg = tsh.Cfg(contracts=((REC, 'none'),))
@@ -458,8 +486,10 @@ def c05(rng):
         if native:
             # the lock's flag byte is data of OP_TAPROOT whatever its value: a (script, key) pair that does not
             # recompute to the root is refused under every flag byte, with or without further items below
-            for _ in range(6):
-                fb = rng.randrange(256)
+            global _C05_SWEPT
+            sweep = list(range(256)) if not _C05_SWEPT else [rng.randrange(256) for _ in range(6)]
+            _C05_SWEPT = True         # every worker process sweeps all 256 flag bytes once, then samples
+            for fb in sweep:
                 lk = T.make_taproot_lock(P, S, sigflags='%02x' % fb)
                 wrong = rng.choice([T.make_taproot_witness_scriptspend(P, S2), T.make_taproot_witness_scriptspend(PUBS[b], S),
                                     T.make_taproot_witness_scriptspend(PUBS[b], S2)])
@@ -577,7 +607,30 @@ def gpush(v):
 
 
 # ---------------------------------------------------------------- C18: AMHL
+def c18_empty_seed(rng):
+    """seed b'' (a valid bytes value): the class draws a fresh random seed, so nothing can be recomputed from outside;
+    the chain must still be consistent with itself"""
+    out = []
+    cfg = tsh.Cfg()
+    n = rng.randint(2, 4)
+    ids = rng.sample(range(len(SEEDS)), n)
+    pubs = [PUBS[i] for i in ids]; prvs = [SEEDS[i] for i in ids]
+    am = T.setup_amhl(b'', pubs)
+    out.append(('amhl(seed b\'\'): final key opens the last tweak point', None, None, None, _AM.AMHL.verify_lock_key(am[pubs[-1]][2], am['key'])))
+    sfs = [fields(rng) for _ in range(n)]
+    wits = [T.make_adapter_witness(prvs[i], am[pubs[i]][2], sfs[i]) for i in range(n)]
+    k, sig = am['key'], None
+    for i in range(n - 1, -1, -1):
+        if sig is not None:
+            k = T.release_left_amhl_lock(wits[i + 1].bytes, sig, am[pubs[i + 1]][3])
+        sig = T.decrypt_adapter(wits[i].bytes, k)
+        out.append(('amhl(seed b\'\'): hop %d unlocks with released scalar' % i, [gpush(sig), bs(am[pubs[i]][1])], sfs[i], cfg, True))
+    return out
+
+
 def c18(rng):
+    if rng.random() < 0.12:
+        return c18_empty_seed(rng)
     out = []
     cfg = tsh.Cfg()
     n = rng.randint(2, 6)
